@@ -304,10 +304,10 @@ def run_impl(p):
         with np.errstate(all="ignore"), warnings.catch_warnings():
             warnings.simplefilter("ignore")
             if json.dumps(_norm(rl.to_array()), default=str) != json.dumps(before, default=str):
-                raise AssertionError("the operation changed its operand")
+                raise engine.Inconsistent("the operation changed its operand")
         second = op(rl)
         if json.dumps(first, default=str) != json.dumps(second, default=str):
-            raise AssertionError("the same operation on the same object gave two different results")
+            raise engine.Inconsistent("the same operation on the same object gave two different results")
         return first
     def op(rl):
         with np.errstate(all="ignore"), warnings.catch_warnings():
